@@ -31,6 +31,7 @@
 #include "HuTucker/HuTucker.h"
 #include "Huffman/Huffman.h"
 #include "utils/Coder/StatCoder.h"
+#include "utils/Coder/DecodingTableBuilder.h"
 #include "utils/DAC_VLS.h"
 #include "utils/LogSequence.h"
 #include "utils/VByte.h"
@@ -274,11 +275,227 @@ static void code_table(const char *kind, const std::vector<unsigned> &freq, int 
       fprintf(out, "{\"e\":\"Enc\",\"id\":%d,\"s\":%s,\"bytes\":%s,\"off\":%u}\n", id, arr(s.data(), len + 1).c_str(), arr(e, encLen).c_str(), offset);
       delete[] e;
     }
+    // strings built around the longest codewords: alone (bit offset 0), doubled, and behind a prefix whose code
+    // length is a multiple of 8 (the long codeword then starts exactly at a byte boundary inside the string)
+    std::vector<int> order(253);
+    for (int i = 0; i < 253; i++) order[i] = i + 2;
+    std::stable_sort(order.begin(), order.end(), [&](int a, int b) { return cw[a].bits > cw[b].bits; });
+    std::vector<std::vector<unsigned char>> pre;
+    for (int a = 2; a < 255 && pre.size() < 2; a++)
+      for (int b = 2; b < 255 && pre.size() < 2; b++)
+        if ((cw[a].bits + cw[b].bits) % 8 == 0) pre.push_back({(unsigned char)a, (unsigned char)b});
+    for (int k = 0; k < 4; k++) {
+      unsigned char r = (unsigned char)order[k];
+      std::vector<std::vector<unsigned char>> ss = {{r}, {r, r}, {(unsigned char)order[k + 4], r}};
+      for (auto &pp : pre) ss.push_back({pp[0], pp[1], r, pp[0]});
+      for (auto &s : ss) {
+        s.push_back(0);
+        uint encLen = 0, offset = 0;
+        unsigned char *e = coder.encodeString(s.data(), s.size(), &encLen, &offset);
+        fprintf(out, "{\"e\":\"Enc\",\"id\":%d,\"s\":%s,\"bytes\":%s,\"off\":%u}\n", id, arr(s.data(), s.size()).c_str(), arr(e, encLen).c_str(), offset);
+        delete[] e;
+      }
+    }
   }
   delete[] cw;
   delete ht;
   delete hf;
 }
+// ------------------------------------------------------------------------------------ chunked decoding table
+// The table is built the way the dictionaries build it (HASHHF style: every string encoded on its own, padded to a
+// byte, encodeSymbol + insertDecodeableSubstr per symbol, insertEndingSubstr at the end) and every string is decoded
+// back with processChunk from a buffer of exactly its encoded size.  One TDec event per string (at most 400 per
+// table, the rest summarised in TDecSum): what was encoded, what came back, whether the decoder saw the end.
+static void table_decode(const char *kind, const std::vector<unsigned> &freq, const std::vector<std::string> &strs, int id) {
+  std::vector<unsigned> f = freq;
+  DecodingTableBuilder *builder = new DecodingTableBuilder();
+  if (std::string(kind) == "hutucker") {
+    HuTucker *ht = new HuTucker(f.data());
+    builder->initializeFromHuTucker(ht);
+    delete ht;
+  } else {
+    Huffman *hf = new Huffman(f.data());
+    builder->initializeFromHuffman(hf);
+    delete hf;
+  }
+  Codeword *cw = builder->getCodewords();
+  std::string t = "[";
+  for (int i = 0; i < 256; i++) t += (i ? "," : "") + bitsj(cw[i].codeword, cw[i].bits);
+  t += "]";
+  fprintf(out, "{\"e\":\"Code\",\"id\":%d,\"kind\":\"%s\",\"freq\":%s,\"table\":%s}\n", id, kind, arr(freq.data(), 256).c_str(), t.c_str());
+  fflush(out);
+  uint maxlength = 0;
+  for (auto &x : strs) maxlength = std::max<uint>(maxlength, x.size() + 1);
+  StatCoder *coder = new StatCoder(cw);
+  std::vector<std::string> encoded(strs.size());
+  std::vector<uchar> tmp(6 * maxlength + 16);
+  std::vector<uchar> textSubstr;
+  std::vector<ushort> lenSubstr;
+  for (size_t k = 0; k < strs.size(); k++) {
+    uint bytes = 0, offset = 0;
+    ushort ptrSubstr = 0;
+    uint codeSubstr = 0;
+    tmp[0] = 0;
+    textSubstr.clear();
+    lenSubstr.clear();
+    const uchar *p = (const uchar *)strs[k].c_str();
+    size_t i = 0;
+    do {
+      uchar symbol = p[i];
+      bytes += coder->encodeSymbol(symbol, &tmp[bytes], &offset);
+      i++;
+      builder->insertDecodeableSubstr(symbol, &codeSubstr, &ptrSubstr, &textSubstr, &lenSubstr);
+    } while (p[i - 1] != 0);
+    if (offset > 0) bytes++;
+    encoded[k].assign((char *)tmp.data(), bytes);
+    if (textSubstr.size() > 0) {
+      if (offset > 0) {
+        codeSubstr = (codeSubstr << (8 - offset));
+        ptrSubstr += (8 - offset);
+      }
+      if (ptrSubstr > TABLEBITSO) {
+        codeSubstr = codeSubstr >> (ptrSubstr - TABLEBITSO);
+        ptrSubstr = TABLEBITSO;
+      }
+      builder->insertEndingSubstr(&codeSubstr, &ptrSubstr, &textSubstr, &lenSubstr);
+    }
+  }
+  DecodingTable *table = builder->getTable();
+  size_t wrong = 0, shown = 0;
+  long firstwrong = -1;
+  std::vector<uchar> o(4 * maxlength + 64);
+  for (size_t k = 0; k < strs.size(); k++) {
+    std::fill(o.begin(), o.end(), 0xAA);
+    ChunkScan chunk = {0, 0, (uchar *)encoded[k].data(), (uint)encoded[k].size(), o.data(), 0, 0, 1};
+    uint guard = 0;
+    bool ended = false;
+    while (guard++ < 4 * maxlength + 8 && chunk.strLen < 4 * maxlength) {
+      if (table->processChunk(&chunk)) {
+        ended = true;
+        break;
+      }
+    }
+    bool ok = ended && chunk.strLen == strs[k].size() + 1 && memcmp(o.data(), strs[k].c_str(), strs[k].size() + 1) == 0;
+    if (!ok) {
+      wrong++;
+      if (firstwrong < 0) firstwrong = (long)k;
+    }
+    if (shown < 400 && (strs.size() <= 400 || !ok || k % (strs.size() / 300 + 1) == 0)) {
+      shown++;
+      size_t ol = std::min<size_t>(chunk.strLen, strs[k].size() + 8);
+      fprintf(out, "{\"e\":\"TDec\",\"id\":%d,\"k\":%zu,\"s\":%s,\"out\":%s,\"ended\":%d}\n", id, k, arr((const uchar *)strs[k].c_str(), strs[k].size() + 1).c_str(),
+              arr(o.data(), ol).c_str(), ended ? 1 : 0);
+    }
+  }
+  fprintf(out, "{\"e\":\"TDecSum\",\"id\":%d,\"n\":%zu,\"wrong\":%zu,\"first\":%ld,\"tablebytes\":%zu}\n", id, strs.size(), wrong, firstwrong, (size_t)table->getSize());
+  delete builder;
+  delete coder;
+}
+static std::vector<unsigned> text_freqs(const std::vector<std::string> &strs) {
+  std::vector<unsigned> f(256, 0);
+  for (auto &x : strs) {
+    for (unsigned char c : x) f[c]++;
+    f[0]++;
+  }
+  for (auto &v : f)
+    if (v == 0) v = 1;      // as the dictionaries do
+  return f;
+}
+static void do_tabledec() {
+  int id = 5000;
+  auto both = [&](const std::vector<unsigned> &f, const std::vector<std::string> &strs, const std::string &name) {
+    section("tabledec-" + name + "-hutucker", [&] { table_decode("hutucker", f, strs, id); });
+    section("tabledec-" + name + "-huffman", [&] { table_decode("huffman", f, strs, id + 1); });
+    id += 2;
+  };
+  // 1. Fibonacci-like frequencies over a..z (codewords of 15, 16 and 17 bits next to each other), words whose rare letters
+  //    follow contexts that were indexed before (abx, aby, abz / mxa, mya, mza)
+  {
+    std::vector<unsigned> f(256, 1);
+    unsigned long a = 1, b = 2;
+    for (int i = 0; i < 26; i++) {
+      f['z' - i] = (unsigned)b;
+      unsigned long c = a + b;
+      a = b;
+      b = c;
+    }
+    f[0] = (unsigned)b;
+    std::vector<std::string> w = {"aaaa", "aab", "abacab", "abc", "abx", "aby", "abz", "bad", "cab", "cafe", "dead", "deaf", "decade", "ebbed", "faced",
+                                  "gabbed", "hedge", "jab", "kea", "mxa", "mya", "mza", "nag", "opal", "quack"};
+    both(f, w, "fibonacci");
+    // the same with the rare letters also at the start of a string (a chunk start registers them on their own)
+    for (const char *x : {"x", "xx", "y", "yx", "z", "zz", "zzz"}) w.push_back(x);
+    both(f, w, "fibonacci-starts");
+    // every pair and triple of the six rarest letters behind a common context
+    std::vector<std::string> v;
+    for (const char *ctx : {"ab", "m", "de", ""})
+      for (char a : std::string("uvwxyz")) {
+        v.push_back(std::string(ctx) + a);
+        for (char b : std::string("uvwxyz")) v.push_back(std::string(ctx) + a + b);
+      }
+    std::sort(v.begin(), v.end());
+    v.erase(std::unique(v.begin(), v.end()), v.end());
+    both(f, v, "fibonacci-pairs");
+  }
+  // 2. geometric letter frequencies (rarest letters get 17+ bits): the long codeword at every bit offset 0..16
+  {
+    const char *letters = "aeiosnrtlcdupmghbyfvkwzjqxQX7";
+    std::vector<unsigned> f(256, 1);
+    unsigned v = 1u << 27;
+    for (const char *c = letters; *c; c++) {
+      f[(unsigned char)*c] = v;
+      v = v > 2 ? v / 2 : 1;
+    }
+    f[0] = 1u << 26;
+    std::vector<std::string> w;
+    const char *pre[] = {"", "a", "ae", "aea", "aeae", "s", "sn", "as", "aes", "aesn", "i", "ii", "iii"};
+    for (const char *p : pre)
+      for (const char *r : {"Q", "X", "7", "x", "q"}) {
+        w.push_back(std::string(p) + r + "santiago");
+        w.push_back(std::string(p) + r);
+        w.push_back(std::string(p) + r + r);
+      }
+    std::sort(w.begin(), w.end());
+    w.erase(std::unique(w.begin(), w.end()), w.end());
+    both(f, w, "geometric");
+  }
+  // 3. random corpora, code from the corpus' own symbol counts
+  for (int t = 0; t < (thorough ? 30 : 6); t++) {
+    std::vector<std::string> w;
+    int sigma = 2 + rng() % (t % 2 ? 60 : 6);
+    int n = 5 + rng() % (thorough ? 400 : 80);
+    for (int i = 0; i < n; i++) {
+      std::string x;
+      int len = 1 + rng() % (t % 3 == 2 ? 40 : 9);
+      for (int j = 0; j < len; j++) x += (char)(40 + (rng() % 4 ? rng() % sigma : rng() % 3));
+      w.push_back(x);
+    }
+    std::sort(w.begin(), w.end());
+    w.erase(std::unique(w.begin(), w.end()), w.end());
+    both(text_freqs(w), w, "random" + std::to_string(t));
+  }
+  // 4. a corpus whose table stream exceeds 64 KB (tens of thousands of distinct chunk substrings)
+  {
+    std::vector<std::string> w;
+    int n = thorough ? 60000 : 40000;
+    for (int i = 0; i < n; i++) {
+      std::string x;
+      int len = 6 + rng() % 14;
+      // skewed symbol distribution (short codewords for the frequent symbols): a 16-bit chunk then decodes to anything
+      // from one to eight symbols, which is what makes the number of distinct chunk substrings large
+      for (int j = 0; j < len; j++) {
+        int k = 0;
+        while (k < 45 && rng() % 4 != 0) k++;
+        x += (char)(48 + k);
+      }
+      w.push_back(x);
+    }
+    std::sort(w.begin(), w.end());
+    w.erase(std::unique(w.begin(), w.end()), w.end());
+    both(text_freqs(w), w, "large");
+  }
+}
+
 static void do_codes() {
   int id = 0;
   auto both = [&](const std::vector<unsigned> &f, const std::string &name) {
@@ -307,6 +524,21 @@ static void do_codes() {
     both(g, "fibonacci");
     std::reverse(g.begin(), g.end());
     both(g, "fibonacci-rev");
+  }
+  // many ties: small counts only (as the dictionaries give them after zeros are replaced by ones), and explicit
+  // patterns of equal small counts separated by an unused byte and followed by a heavier one, at several positions
+  for (int t = 0; t < (thorough ? 80 : 14); t++) {
+    static const unsigned small[] = {1, 1, 1, 2, 3, 5};
+    std::vector<unsigned> g(256, 1);
+    for (int i = 0; i < 256; i++) g[i] = small[rng() % 6];
+    both(g, "ties" + std::to_string(t));
+  }
+  for (int t = 0; t < (thorough ? 24 : 6); t++) {
+    static const unsigned pat[3][7] = {{3, 1, 3, 1, 3, 1, 5}, {2, 1, 2, 1, 3, 1, 1}, {3, 1, 3, 1, 5, 2, 2}};
+    std::vector<unsigned> g(256, 1);
+    int at = 2 + (t * 37) % 240;
+    for (int i = 0; i < 7; i++) g[at + i] = pat[t % 3][i];
+    both(g, "tiepattern" + std::to_string(t));
   }
   for (int t = 0; t < (thorough ? 60 : 8); t++) {
     std::vector<unsigned> g(256, 1);
@@ -600,6 +832,7 @@ int main(int argc, char **argv) {
   else if (what == "logseq") do_logseq();
   else if (what == "dacvls") do_dacvls();
   else if (what == "codes") do_codes();
+  else if (what == "tabledec") do_tabledec();
   else if (what == "bitseq") do_bitseq();
   else if (what == "wt") do_wt();
   else if (what == "repair") do_repair();
